@@ -425,8 +425,13 @@ type Decoder struct {
 	D   Dialect
 	B   []byte
 	Off int
-	// MaxDepth guards recursion on hostile input.
-	depth int
+	// Strict restricts the decoder to encodings whose conformance is beyond
+	// doubt (used when arbitrary bytes are judged): varints in their shortest form
+	// and within 64 bits, bool bytes 0/1 only (the disputed byte 2 for a false
+	// collection element is rejected, not interpreted), collection element type
+	// BOOL written as 2 only, field ids that do not overflow an i16.
+	Strict bool
+	depth  int
 }
 
 func (d *Decoder) need(n int) error {
@@ -460,6 +465,9 @@ func (d *Decoder) uleb() (uint64, error) {
 		b, err := d.u8()
 		if err != nil {
 			return 0, err
+		}
+		if d.Strict && (shift == 63 && b > 1 || shift > 0 && b == 0) {
+			return 0, errors.New("thriftspec: varint overflows 64 bits or is not in its shortest form")
 		}
 		v |= uint64(b&0x7f) << shift
 		if b < 0x80 {
@@ -575,6 +583,9 @@ func (d *Decoder) binaryValue(t T) (Value, error) {
 		b, err := d.u8()
 		if err != nil {
 			return v, err
+		}
+		if d.Strict && b > 1 {
+			return v, fmt.Errorf("thriftspec: bool byte %d", b)
 		}
 		v.B = b != 0
 	case Byte:
@@ -732,6 +743,9 @@ func (d *Decoder) compactValue(t T) (Value, error) {
 		if err != nil {
 			return v, err
 		}
+		if d.Strict && b == 2 {
+			return v, errors.New("thriftspec: bool element byte 2 (not judged)")
+		}
 		switch b {
 		case 1:
 			v.B = true
@@ -782,7 +796,7 @@ func (d *Decoder) compactValue(t T) (Value, error) {
 			return v, err
 		}
 		et, ok := compactT(h & 0x0f)
-		if !ok {
+		if !ok || d.Strict && h&0x0f == 1 {
 			return v, fmt.Errorf("thriftspec: unknown compact type id %d", h&0x0f)
 		}
 		v.ET = et
@@ -817,7 +831,7 @@ func (d *Decoder) compactValue(t T) (Value, error) {
 		}
 		kt, ok1 := compactT(h >> 4)
 		vt, ok2 := compactT(h & 0x0f)
-		if !ok1 || !ok2 {
+		if !ok1 || !ok2 || d.Strict && (h>>4 == 1 || h&0x0f == 1) {
 			return v, fmt.Errorf("thriftspec: unknown compact type ids %#x", h)
 		}
 		v.KT, v.ET = kt, vt
@@ -850,6 +864,9 @@ func (d *Decoder) compactValue(t T) (Value, error) {
 			tid := h & 0x0f
 			var id int16
 			if h>>4 != 0 {
+				if d.Strict && int(last)+int(h>>4) > math.MaxInt16 {
+					return v, errors.New("thriftspec: field id delta overflows")
+				}
 				id = last + int16(h>>4)
 			} else {
 				u, err := d.uleb()
@@ -889,6 +906,19 @@ func (d *Decoder) compactValue(t T) (Value, error) {
 // Decode decodes exactly one value of type t from b; trailing bytes are an error.
 func Decode(p Proto, dl Dialect, b []byte, t T) (Value, error) {
 	d := Decoder{P: p, D: dl, B: b}
+	v, err := d.Value(t)
+	if err != nil {
+		return v, err
+	}
+	if d.Off != len(b) {
+		return v, fmt.Errorf("thriftspec: %d trailing bytes", len(b)-d.Off)
+	}
+	return v, nil
+}
+
+// DecodeStrict is Decode with Decoder.Strict set.
+func DecodeStrict(p Proto, dl Dialect, b []byte, t T) (Value, error) {
+	d := Decoder{P: p, D: dl, B: b, Strict: true}
 	v, err := d.Value(t)
 	if err != nil {
 		return v, err
